@@ -382,12 +382,25 @@ def run_unit(module_name, sub_name, tier, seed, shard, n_shards):
         _run_hypothesis(sub, tier, seed, shard, n_shards, stats, t0, budget)
     stats["nt"] = sorted(stats["nt"])
     stats["wall"] = time.time() - t0
+    _stop_loky()
     try:
         os.remove(_INFLIGHT["path"])
     except OSError:
         pass
     _INFLIGHT["path"] = None
     return stats
+
+
+def _stop_loky():
+    """joblib's loky pool (started by tangermeme functions called with n_jobs > 1) keeps idle workers for 300 s and the process that
+    owns it waits for them when it exits: without this a finished run lingered for five minutes before returning."""
+    try:
+        rex = sys.modules.get("joblib.externals.loky.reusable_executor")
+        if rex is not None and getattr(rex, "_executor", None) is not None:
+            rex._executor.shutdown(wait=True, kill_workers=True)
+            rex._executor = None
+    except Exception:  # noqa: BLE001 - purely a courtesy to the caller's wall clock
+        pass
 
 
 def inflight_path(prop, sub_name, shard):
@@ -523,6 +536,9 @@ def main(module_name, argv=None):
         traceback.print_exc()
         print("HARNESS-ERROR property=%s unexpected exception in the harness (see traceback)" % prop)
         return 2
+    finally:
+        _stop_loky()
+        sys.stdout.flush()
 
 
 def _replay(mod, path):
